@@ -119,6 +119,10 @@ def check(ctx):
     full = [e for e in I.events if e["kind"] == "setattr" and e["attr"] == "new_dist_" and e["pc"] and e["pc"][-1][1] is True]
     if ctx.ob("NF-DIST", "full arm found", len(full) == 1, f"{len(full)} candidates", site):
         ctx.ob("NF-DIST", "full arm distance == plain FPS distance", N.nf(T("emin", *sorted([H.term, full[0]["value"].term], key=repr))) == N.nf(fps.items[1].term), f"{full[0]['value'].term!r}", site)
+    # the pick itself is the shared step of plain FPS
+    from .C02 import pick_rule
+
+    pick_rule(ctx, N, "R-BOTHARMS", ("VoronoiFPS",))
     # ---- norms definition == _FPS ---------------------------------------------------------------
     _calibration(ctx, N, cls)
 
@@ -210,6 +214,37 @@ def _calibration(ctx, N, cls):
             draws = [x for x in tq.walk_all(sel.term) if x.op == "rng" and x.args[1] == "randint"]
             okb = bool(draws) and all(tq.randint_range(x) == (_c0(0), _dim_term(Dim.of("N"))) for x in draws)
             ctx.ob("R-INDEXSPACE", "the random initial pick is drawn among the samples (randint over the number of samples)", okb, f"selected_idx_ = {repr(sel.term)[:200]}", site, vname)
+    # first step as a whole (initialisation + first table update, nothing replaced but the value of the switching
+    # point, which becomes a symbol when the first update starts): the table holds the FPS distances to the initial
+    # pick, whatever the switching point (explicit or calibrated) and the pick
+    for cfg, kw in (("explicit switching point", {"full_fraction": scalar("ff0", 0, 1, True, False)}), ("calibrated switching point", {})):
+        ffs = scalar("ff", 0, 1, True, False)
+        seen = []
+
+        def through(interp, clo, args, kw_, st_, node, ffs=ffs, seen=seen):
+            seen.append(1)
+            st_.heap[clo.self_v.obj.id]["full_fraction"] = ffs
+            stubs_ = interp.config["stubs"]
+            del stubs_["VoronoiFPS._update_post_selection"]
+            try:
+                return interp.call_function(clo, args, kw_, st_, node)
+            finally:
+                stubs_["VoronoiFPS._update_post_selection"] = through
+
+        If = ctx.interp(stubs={"VoronoiFPS._update_post_selection": through}, assume=protocols.assume_default)
+        sf = State()
+        of = ctx.construct(If, sf, cls, n_to_select=integer("S"), **kw)
+        i0 = _index("i0", "N")
+        sf.heap[of.obj.id]["_axis"], sf.heap[of.obj.id]["initialize"] = vconst(0), i0
+        lo_f = len(If.events)
+        ctx.call_method(If, sf, of, "_init_greedy_search", X, y, integer("S"))
+        hf = sf.heap[of.obj.id]
+        I2f, s2f = ctx.interp(), State()
+        nrm = ctx.call_func(I2f, s2f, "ref.selection_ref.fps_norms", X, 0)
+        want = ctx.call_func(I2f, s2f, "ref.selection_ref.voronoi_first_table", X, nrm, i0, ffs)
+        if ctx.ob("R-BOTHARMS", "the initialisation runs the first table update once", len(seen) == 1, f"{len(seen)} calls of _update_post_selection", site, cfg):
+            ctx.compare("R-BOTHARMS", "after the initialisation the table holds the FPS distances to the initial pick", N, hf.get("hausdorff_"), want, site, cfg)
+        ctx.no_shape_conflicts("Shape", "initialisation with its first table update", If, lo_f, site, cfg)
     # calibrated switching point together with a random first pick: the pick is drawn from a stream
     # that the timing trials have not advanced
     Ir = ctx.interp(stubs={"VoronoiFPS._update_post_selection": noop}, assume=protocols.assume_default)
